@@ -101,7 +101,8 @@ BAD_KEYS = ("Xx", "C1", "", "?+1", "CC", "C+", "C++1", "+1", "C+1+", "C+a", "C-"
 # which, once accepted, must be spellable as SELFIES symbols (C07)
 ODD_KEYS = ("C+0", "C+01", "N-0", "O+00", "C-\u00b2", "N+\u0661", "S+007", "C+10", "N-10",
             "Fe+20", "O+100", "c", "*", "R", "D", "C+1\u0662", "Fe+2\u0969",
-            "N+\uff11", "C+1\u00b2", "N+1\u0660", "C+\u0967\u0966")
+            "N+\uff11", "C+1\u00b2", "N+1\u0660", "C+\u0967\u0966",
+            "C+" + "1" * 5000, "Fe-" + "9" * 4400, "N+" + "7" * 4299)      # charges int() refuses / just accepts
 BAD_VALUES = ("-1", "-7", "2.0", "2.5", "'3'", "None", "[1]", "(2,)", "-0.0", "1e0", "{}")
 BAD_PRESETS = ("octet", "Default", "", "hyper-valent", "default ", "OCTET_RULE", "?", "C")
 BAD_ARGS = ("None", "4", "2.5", "[('C', 4), ('?', 8)]", "(('?', 8),)", "['?']", "{'?'}",
